@@ -430,6 +430,15 @@ class LTop(Component):
       if how[0] == "r": s.ws.reverse()
       elif how[0] == "d": del s.ws[0]
       else: s.ws[0], s.ws[2] = s.ws[2], s.ws[0]
+    elif how in ("grid-reverse-row1", "grid-swap-rows", "grid-reverse-last-row-3d", "grid-untouched"):
+      # a list of LISTS changed in place below the first row / plane
+      s.regs = [LReg() for _ in range(n)]
+      if how.endswith("3d"):
+        s.grid = [[[Wire(8) for _ in range(2)] for _ in range(2)] for _ in range(2)]; s.grid[1][1].reverse()
+      else:
+        s.grid = [[Wire(8) for _ in range(3)] for _ in range(2)]
+        if how == "grid-reverse-row1": s.grid[1].reverse()
+        elif how == "grid-swap-rows": s.grid[0], s.grid[1] = s.grid[1], s.grid[0]
     elif how == "append-spare":
       # the late elements are not touched again by construct()
       s.regs = [LReg() for _ in range(n)]
@@ -453,7 +462,8 @@ def run_listbuild_case(sh, case):
   rng = sh.rng("listbuild", case)
   how = rng.choice(["assign-complete", "plus-equal", "plus-equal", "plus-equal-wires", "append-after", "setitem-after", "append-spare", "setitem-spare", "overwrite-with-int",
                     "insert-then-plus-equal", "reverse-then-plus-equal", "pop-then-plus-equal",
-                    "reverse-only", "del-first-only", "swap-only"])
+                    "reverse-only", "del-first-only", "swap-only",
+                    "grid-reverse-row1", "grid-swap-rows", "grid-reverse-last-row-3d", "grid-untouched"])
   n = rng.randrange(2, 6)
   mod = G.load_source(LISTBUILD_SRC, "c14lb")
   try:
@@ -461,7 +471,7 @@ def run_listbuild_case(sh, case):
       top = mod.LTop(how, n); top.elaborate()
     except Exception as e:
       sh.count("listbuild:" + how + ":refused")
-      if how in ("assign-complete", "plus-equal", "plus-equal-wires"):
+      if how in ("assign-complete", "plus-equal", "plus-equal-wires", "grid-untouched"):
         sh.violation("legal-list-construction-refused", {"how": how, "n": n, "error": f"{type(e).__name__}: {str(e)[:200]}"}, case=("listbuild", case))
       return
     sh.count("listbuild:" + how + ":elaborated"); sh.count("list_construction_designs")
@@ -469,6 +479,15 @@ def run_listbuild_case(sh, case):
     comps = [o for o in objs if type(o).__name__ == "LReg"]
     if len(comps) != n and "spare" not in how:
       sh.violation("hardware-object-of-a-list-is-missing-from-the-hierarchy", {"how": how, "n": n, "components_found": len(comps)}, case=("listbuild", case)); return
+    if hasattr(top, "grid"):
+      def walk_(x, idx):
+        if isinstance(x, list):
+          for i_, y_ in enumerate(x): yield from walk_(y_, idx + [i_])
+        else: yield x, idx
+      for w_, idx_ in walk_(top.grid, []):
+        want_ = "s.grid" + "".join(f"[{i_}]" for i_ in idx_)
+        if w_ not in objs or repr(w_) != want_:
+          sh.violation("list-element-name-does-not-say-where-it-is", {"how": how, "position": idx_, "name": repr(w_), "in_hierarchy": w_ in objs}, case=("listbuild", case)); return
     if hasattr(top, "ws"):
       # the wires really in the list are objects of the design, each under its own name
       for i_, w_ in enumerate(top.ws):
